@@ -1416,7 +1416,7 @@ def mpf_cos_sin(x, prec, rnd=round_fast, which=0, pi=False):
         # Subtract nearest half-integer (= mod by pi/2)
         n = ((man >> (-exp-2)) + 1) >> 1
         man = man - (n << (-exp-1))
-        mag2 = bitcount(man) + exp
+        mag2 = bitcount(abs(man)) + exp
         wp = prec + 10 - mag2
         offset = exp + wp
         if offset >= 0:
